@@ -942,7 +942,10 @@ class Explorer:
         if isinstance(value, GenObj) or (isinstance(sh, tuple) and sh and sh[0] in ("gen", "fn", "bm")):
             raise VMError("storing generator/function objects in attributes is not modelled (%s)" % ci.name)
         new_shape = join_shape(ci.shape, sh)
-        if ci.shape == "unset" and obj.__dict__.get(name, NULL) is None and sh != ("c", "NoneType", None):
+        if ci.shape == "unset" and obj.__dict__.get(name, NULL) is None and sh != ("c", "NoneType", None) and (
+                w.storage_files is not None or w.files):
+            # (process / file worlds only: the pool models were built and validated with the earlier rule, where such a cell
+            # takes the shape of the first value stored by encoded code)
             # the attribute is None on the real object when the encoded code starts: the cell is Optional from the start
             new_shape = join_shape(("c", "NoneType", None), sh)
         if new_shape != ci.shape:
@@ -2574,6 +2577,10 @@ class Explorer:
     # with / exceptions
     def op_BEFORE_WITH(self, ts, pst, th, f, ins, st):
         mgr = st[-1]
+        if isinstance(mgr, SOpt) and isinstance(mgr.payload, prims.SimObj):
+            pst.set_flag("typeerror-None-used-as-context-manager", mgr.is_none)
+            mgr = mgr.payload
+            st[-1] = mgr
         if isinstance(mgr, prims.SimObj):
             saved = list(st)
             st.pop()
